@@ -17,6 +17,8 @@ pub fn parts(id: &str, thorough: bool) -> Vec<Part> {
             e2("C15kinds", 60_000, 2_000_000, "kind in {Arc, Rc, Option of either, sync::Weak, rc::Weak, Option of Weak, dangling Weak, Weak with dropped target, None} x pointee in {ZST, u8, u64, [u8;24], String, align(64)} x extra strong 0-3 x extra weak 0-3 x 1-11 trait calls / container round trips; shadow model of (strong, weak) and identity. Non-trivial: an empty value, a dropped target or outstanding weak references were involved.");
             e2("C15mix", 40_000, 1_500_000, "programs (1-39 ops) over a pool of 3 allocations + fresh ones and 1-4 containers of mixed pointer kinds (ArcSwapAny<Strong>, ArcSwapAny<Option<Strong>>, ArcSwapAny<Weak>; Strong/Weak = Arc/sync::Weak or Rc/rc::Weak; default or fallback-only strategy) in which the same allocation sits in containers of both classes while guards of both classes are alive: load, load_full, store, swap, compare_and_swap, up to 11 guards at once, guard/handle/pool-handle release in any order, deref/upgrade of guards; against a plain-variable model with exact strong and weak counts (a guard owns a count or borrows through a slot - read off the slots), occupied slots == borrowing guards after every step, destruction exactly once and exactly when the last strong owner/guard goes, Weak upgrades iff alive. Non-trivial: an allocation was in containers of both classes, a guard was alive across a write that removed its allocation from a container, or a Weak guard outlived its target.");
         }
+        "C01" => e2("C01mix", 30_000, 1_000_000, "programs (1-39 ops) over a pool of 3 allocations + fresh ones and 1-4 containers of mixed pointer kinds (ArcSwapAny<Strong>, ArcSwapAny<Option<Strong>>, ArcSwapAny<Weak>; Strong/Weak = Arc/sync::Weak or Rc/rc::Weak; default or fallback-only strategy) in which the same allocation sits in containers of both classes while guards of both classes are alive: load, load_full, store, swap, compare_and_swap, up to 11 guards at once, guard/handle/pool-handle release in any order, deref/upgrade of guards; against a plain-variable model with exact strong and weak counts (a guard owns a count or borrows through a slot - read off the slots), occupied slots == borrowing guards after every step, destruction exactly once and exactly when the last strong owner/guard goes, Weak upgrades iff alive. Non-trivial: an allocation was in containers of both classes, a guard was alive across a write that removed its allocation from a container, or a Weak guard outlived its target."),
+        "C02" => e2("C02mix", 30_000, 1_000_000, "programs (1-39 ops) over a pool of 3 allocations + fresh ones and 1-4 containers of mixed pointer kinds (ArcSwapAny<Strong>, ArcSwapAny<Option<Strong>>, ArcSwapAny<Weak>; Strong/Weak = Arc/sync::Weak or Rc/rc::Weak; default or fallback-only strategy) in which the same allocation sits in containers of both classes while guards of both classes are alive: load, load_full, store, swap, compare_and_swap, up to 11 guards at once, guard/handle/pool-handle release in any order, deref/upgrade of guards; against a plain-variable model with exact strong and weak counts (a guard owns a count or borrows through a slot - read off the slots), occupied slots == borrowing guards after every step, destruction exactly once and exactly when the last strong owner/guard goes, Weak upgrades iff alive. Non-trivial: an allocation was in containers of both classes, a guard was alive across a write that removed its allocation from a container, or a Weak guard outlived its target."),
         "C12" => e2("C12mix", 40_000, 1_500_000, "programs (1-39 ops) over a pool of 3 allocations + fresh ones and 1-4 containers of mixed pointer kinds (ArcSwapAny<Strong>, ArcSwapAny<Option<Strong>>, ArcSwapAny<Weak>; Strong/Weak = Arc/sync::Weak or Rc/rc::Weak; default or fallback-only strategy) in which the same allocation sits in containers of both classes while guards of both classes are alive: load, load_full, store, swap, compare_and_swap, up to 11 guards at once, guard/handle/pool-handle release in any order, deref/upgrade of guards; against a plain-variable model with exact strong and weak counts (a guard owns a count or borrows through a slot - read off the slots), occupied slots == borrowing guards after every step, destruction exactly once and exactly when the last strong owner/guard goes, Weak upgrades iff alive. Non-trivial: an allocation was in containers of both classes, a guard was alive across a write that removed its allocation from a container, or a Weak guard outlived its target."),
         "C16" => e2("C16seq", 30_000, 500_000, "store sequences (pool value, fresh, same again, A-B-A, None) x loads of up to 4 caches, clones and 3 mapped caches on the real Arc: Cache::load == current value, strong counts == container + caches that last returned it, superseded value released by the observing load, mapped cache == projection. Non-trivial: a cache observed a change."),
         "C17" => e2("C17seq", 30_000, 500_000, "9 projection chains (Map depth 1-4 over &, Arc, Box<dyn DynAccess>, AccessConvert, the map method, direct Access<T>) x store/load/deref/drop sequences: every deref yields value and address of the snapshot current at the guard's load, the snapshot stays alive exactly as long as a guard needs it, static and dynamic dispatch agree, Constant yields its value. Non-trivial: a store happened during the life of a guard that was dereferenced afterwards."),
@@ -65,7 +67,7 @@ pub fn worker(part: &str, widx: u64, n: usize, seed: u64, outdir: &str) -> i32 {
                 (kinds::nontrivial(c), Value::Object(m))
             })
         }),
-        "C12mix" | "C15mix" => e2_loop(part, if part == "C12mix" { "C12" } else { "C15" }, mixseq::case_strategy(), widx, n, seed, outdir, |c: &mixseq::MCase| mixseq::run_case(c).map(|s| (mixseq::nontrivial(&s), serde_json::to_value(&s).unwrap()))),
+        "C01mix" | "C02mix" | "C12mix" | "C15mix" => e2_loop(part, &part[..3], mixseq::case_strategy(), widx, n, seed, outdir, |c: &mixseq::MCase| mixseq::run_case(c).map(|s| (mixseq::nontrivial(&s), serde_json::to_value(&s).unwrap()))),
         "C16seq" => e2_loop(part, "C16", cacheseq::case_strategy(), widx, n, seed, outdir, |c: &cacheseq::CCase| cacheseq::run_case(c).map(|s| (cacheseq::nontrivial(&s), serde_json::to_value(&s).unwrap()))),
         "C17seq" => e2_loop(part, "C17", accessseq::case_strategy(), widx, n, seed, outdir, |c: &accessseq::ACase| accessseq::run_case(c).map(|s| (accessseq::nontrivial(&s), serde_json::to_value(&s).unwrap()))),
         "C20serde" => e2_loop(part, "C20", serdechk::case_strategy(), widx, n, seed, outdir, |c: &serdechk::SCase| {
@@ -90,7 +92,7 @@ pub fn replay(engine: &str, case: &Value) -> Result<(), String> {
     match engine {
         "C14seq" => seq::run_prog(&de(case)?).map(|_| ()),
         "C15kinds" => kinds::run_case(&de(case)?),
-        "C12mix" | "C15mix" => mixseq::run_case(&de(case)?).map(|_| ()),
+        "C01mix" | "C02mix" | "C12mix" | "C15mix" => mixseq::run_case(&de(case)?).map(|_| ()),
         "C16seq" => cacheseq::run_case(&de(case)?).map(|_| ()),
         "C17seq" => accessseq::run_case(&de(case)?).map(|_| ()),
         "C20serde" => serdechk::run_case(&de(case)?),
